@@ -35,6 +35,16 @@ def do_replay(mod, path: str) -> int:
     with open(path) as f:
         body = json.load(f)
     name, case = body["stratum"], body["case"]
+    if hasattr(mod, "setup"):
+        mod.setup(None)
+    try:
+        return _do_replay(mod, path, name, case)
+    finally:
+        if hasattr(mod, "teardown"):
+            mod.teardown(None)
+
+
+def _do_replay(mod, path, name, case) -> int:
     for tier in ("quick", "thorough"):
         for st in mod.plan(tier):
             if st["name"] != name:
@@ -72,10 +82,14 @@ def main(argv=None) -> int:
     if a.replay:
         return do_replay(mod, a.replay)
     ctx = Ctx(mod.ID, a.tier, mod.LEVEL, mod.RULE, getattr(mod, "ASSUMPTIONS", []))
-    if hasattr(mod, "setup"):
-        mod.setup(ctx)
-    run_plan(mod, ctx, a.only)
-    return ctx.finish()
+    try:
+        if hasattr(mod, "setup"):
+            mod.setup(ctx)
+        run_plan(mod, ctx, a.only)
+        return ctx.finish()
+    finally:
+        if hasattr(mod, "teardown"):
+            mod.teardown(ctx)
 
 
 if __name__ == "__main__":
